@@ -116,7 +116,7 @@ func c13(c *Ctx) {
 	dropSet := func(fnName string) []uint64 {
 		fn := p.Func(fnName)
 		if fn == nil {
-			r.Fatalf("anchor %s missing", fnName)
+			missingAnchor(r, fnName)
 			return nil
 		}
 		set := map[uint64]bool{}
@@ -179,7 +179,7 @@ func c13(c *Ctx) {
 		if f := p.Func(nme); f != nil {
 			entries = append(entries, f)
 		} else {
-			r.Fatalf("anchor %s missing", nme)
+			missingAnchor(r, nme)
 		}
 	}
 	boundsFor(c, "C13", entries)
@@ -232,7 +232,7 @@ func sizeFlagRule(c *Ctx, fnName string, want bool, what string) {
 	p, r := c.Prog, c.R
 	fn := p.Func(fnName)
 	if fn == nil {
-		r.Fatalf("anchor %s missing", fnName)
+		missingAnchor(r, fnName)
 		return
 	}
 	calls := 0
@@ -285,7 +285,7 @@ func c15(c *Ctx) {
 		"read for output or appended to. Equality with a fresh depacketizer's output is not decided."
 	n := carryRule(c, "codecs.(*H264Packet).parseBody", "fuaBuffer", []startPred{{"$p[1].7", true}})
 	n += carryRule(c, "codecs.(*AV1Depacketizer).Unmarshal", "buffer", []startPred{{"$p[0].7", false}, {"$p[0].3", true}})
-	r.Floor("carry-buffer rule instances", n, 3)
+	r.Floor("carry-buffer rule instances", n, 2)
 }
 
 type startPred struct {
@@ -307,7 +307,7 @@ func carryRule(c *Ctx, fnName, field string, preds []startPred) int {
 	p, r := c.Prog, c.R
 	fn := p.Func(fnName)
 	if fn == nil {
-		r.Fatalf("anchor %s missing", fnName)
+		missingAnchor(r, fnName)
 		return 0
 	}
 	m := bits.Run(p, fn)
@@ -558,7 +558,7 @@ func c16(c *Ctx) {
 		if f := p.Func(nme); f != nil {
 			entries = append(entries, f)
 		} else {
-			r.Fatalf("anchor %s missing", nme)
+			missingAnchor(r, nme)
 		}
 	}
 	// fragment counts and sizes must not be computed in arithmetic that can wrap (uint16 sums of a length and the MTU)
@@ -570,7 +570,7 @@ func audioSplitRule(c *Ctx, fnName string) int {
 	p, r := c.Prog, c.R
 	fn := p.Func(fnName)
 	if fn == nil {
-		r.Fatalf("anchor %s missing", fnName)
+		missingAnchor(r, fnName)
 		return 0
 	}
 	mtu := fn.Params[1]
@@ -742,7 +742,7 @@ func opusRules(c *Ctx) int {
 	fnName := "codecs.(*OpusPacket).Unmarshal"
 	fn := p.Func(fnName)
 	if fn == nil {
-		r.Fatalf("anchor %s missing", fnName)
+		missingAnchor(r, fnName)
 		return 0
 	}
 	pkt := fn.Params[1]
